@@ -121,10 +121,13 @@ RECIPES = {
     },
     "C13": {
         "level": "model_checking",
-        "mc": {"quick": [], "thorough": []},
+        "mc": {"quick": [("MC_SymVer", "MC_SymVer_q", 8)], "thorough": [("MC_SymVer", "MC_SymVer_t", 12)]},
         "families": {"quick": [("symver", 100, 4)], "thorough": [("symver", 800, 12)]},
         "reasons": ("value", "panic"),
-        "rule": "B: version models (0..12 verneed x 0..6 aux, 0..12 verdef x 1..3 names, versym mixing 0,1,defined,needed,unknown, "
+        "rule": "A: .gnu.version/_r/_d encoded in TLA+ for every model with <= 2 verneed files x <= 2 aux, <= 2 verdefs x <= 2 names, "
+                "contiguous and records-then-auxes layouts, versym holding every kind of index (local, global, each listed one, an "
+                "unlisted one; plain and hidden): TLC checks the operational queries against the declarative ReqOk/DefOk and emits "
+                "each object with all queries for replay; B: version models (0..12 verneed x 0..6 aux, 0..12 verdef x 1..3 names, versym mixing 0,1,defined,needed,unknown, "
                 "hidden), contiguous / records-then-auxes / gapped layouts, both classes/orders, via SymbolVersionTable::new; "
                 "every symbol index 0..len+1 and huge; result compared with the operational model and the ground-truth model",
         "assumptions": COMMON_ASSUME,
@@ -234,11 +237,12 @@ RECIPES = {
     "C20": {
         "level": "model_checking",
         "mc": {"quick": [("MC_Paths", "MC_Paths_q", 6)], "thorough": [("MC_Paths", "MC_Paths_t", 10)]},
-        "families": {"quick": [("elf", 10, 4), ("elfcorrupt", 8, 2)], "thorough": [("elf", 80, 8), ("elfcorrupt", 60, 6)]},
+        "families": {"quick": [("elf", 10, 4), ("elfcorrupt", 8, 2), ("stream", 5, 2)],
+                     "thorough": [("elf", 80, 8), ("elfcorrupt", 60, 6), ("stream", 40, 4)]},
         "reasons": ("value", "panic"),
-        "tags": ["q:find_common_data", "q:shdr_by_name", "q:section_data_as_strtab", "q:section_data_as_rels",
-                 "q:section_data_as_relas", "q:section_data_as_notes", "q:segment_data_as_notes", "q:dynamic", "q:symbol_table",
-                 "q:dynamic_symbol_table"],
+        "tags": [p + n for p in ("q:", "sq:") for n in ("find_common_data", "shdr_by_name", "section_data_as_strtab",
+                 "section_data_as_rels", "section_data_as_relas", "section_data_as_notes", "segment_data_as_notes", "dynamic",
+                 "symbol_table", "dynamic_symbol_table")],
         "rule": "A: objects built in TLA+ with/without each of .symtab .dynsym .dynamic .hash PT_DYNAMIC, names that are "
                 "prefixes/extensions/duplicates and a non-UTF-8 name: TLC checks find_common_data = targeted accessors, by-name = "
                 "first equal name for every name/prefix/extension, typed view refused iff type differs, section path = segment "
